@@ -339,6 +339,10 @@ def run(repo: Repo, rep: Report, tier: str) -> None:
     from .memo import memo_rule
 
     memo_rule(repo, rep, "C01.R15")
+    from .c04 import struct_rw_fold_rule
+
+    struct_rw_fold_rule(repo, rep, "C01.R16", 3 if tier == "thorough" else 2)
+
 
 
 
